@@ -17,10 +17,8 @@ def jobs(tier):
     js = []
     for pi in range(6):
         js.append(('c17_size', (pi, 2), 2))
-        js.append(('c17_size_math', (pi, 2 if tier == 'quick' else 3), 2 if tier == 'quick' else 3))
+        js.append(('c17_size_math', (pi, 2), 2))
     js.append(('c17_free', (3,), 3))
-    if tier != 'quick':
-        js.append(('c17_free', (4,), 4))
     for text in overlap_inputs():
         js.append(('c17_const', (text,), 0))
     from vt import cover
@@ -86,7 +84,7 @@ def native_outcome(text, seed):
 def post(tier, seed, log):
     from symtex import partition, cond
     t0 = time.time()
-    seeds = [0, 1, 2, 3, 42] if tier == 'quick' else [0, 1, 2, 3, 4, 5, 6, 7, 8, 9, 10, 11, 12, 13, 42, 1000 + seed]
+    seeds = [0, 1, 2, 3, 42] if tier == 'quick' else [0, 1, 2, 3, 4, 5, 6, 7, 42, 1000 + seed]
     nparts = 3 if tier == 'quick' else 1
     tmp = tempfile.mkdtemp(prefix='c17seeds_', dir=os.path.join(VERIF, '.cache') if os.path.isdir(os.path.join(VERIF, '.cache')) else None)
     procs = []
